@@ -60,7 +60,7 @@ func raceChild(a hkit.Args) {
 		js, _ := json.Marshal(spec)
 		fmt.Fprintf(os.Stderr, "RACE-SCENARIO %d %s\n", i, js)
 		for r := 0; r < reps; r++ {
-			freshStats()
+			freshStats(spec.Group == "export")
 			var wg sync.WaitGroup
 			for _, prog := range spec.Programs {
 				prog := prog
